@@ -529,7 +529,12 @@ void Engine::run() {
 		}
 		if (se.getb("stop", true)) {
 			if (prop) prop->before_stop(*this, (int) s);
+			// bus traffic that keeps arriving while the library stops
+			int stb = -1;
+			const J &stev = se["stop_bus"];
+			if (stev.size() > 0) stb = sim::spawn([this, &stev]() { run_bus_events(stev); }, "stopbus");
 			do_stop();
+			if (stb >= 0) sim::join(stb);
 			if (prop) prop->on_session_stop(*this, (int) s);
 			if (se.getb("stop_again", false)) {
 				size_t w = bus.wire.size(); size_t te = sim::thread_events().size(); uint64_t t0 = sim::now_us();
